@@ -1,7 +1,7 @@
 """C14 - ULP stepping and epsilon/ULP comparisons (ext/scalar_ulp.inl, vector_ulp.inl, *_relational.inl, gtc/epsilon.inl)."""
 from props.common import *
 LEVEL = 'proof'
-CLAIM = "nextFloat/prevFloat (1- and n-step, scalar and vector), floatDistance, the ULP and epsilon comparison overloads (scalar, vec1-4, matrix, quaternion) and GLM's bundled Sun nextafter are executed symbolically over all floats and doubles; the solver shows they agree with integer arithmetic on the IEEE total order (+0 == -0) and with the IEEE evaluation of |x-y| <= epsilon."
+CLAIM = "nextFloat/prevFloat (1- and n-step, scalar and vector), floatDistance, their gtc/ulp.hpp twins next_float/prev_float/float_distance, the ULP and epsilon comparison overloads (scalar, vec1-4, matrix, quaternion) and GLM's bundled Sun nextafter are executed symbolically over all floats and doubles; the solver shows they agree with integer arithmetic on the IEEE total order (+0 == -0) and with the IEEE evaluation of |x-y| <= epsilon."
 BOUNDS = 'all 2^32 floats / 2^64 doubles symbolically; n-step overloads: symbolic 0<=n<=8 (loop unwind 10 with unwinding assertion); larger n outside the claim'
 OUTSIDE = 'n > 8 steps; NaN operands of the comparison functions; distances that do not fit the return type of floatDistance'
 ASSUMPTIONS = ['libm nextafter/nextafterf is modelled bit-exactly by engine/models.py:nextafter_bits (validated against the native libm each run)',
@@ -39,6 +39,11 @@ for t, (c, w, ic) in FT.items():
               ' stv(o3, glm::equal(ldm<%d,%d,%s>(a), ldm<%d,%d,%s>(b), c[0])); stv(o4, glm::notEqual(ldm<%d,%d,%s>(a), ldm<%d,%d,%s>(b), c[0]));' % ((C, R, c) * 2 + (C, c) + (C, R, c) * 2 + (C, c) + (C, R, c) * 4))
     U.add('eqeps_q_' + t, [(c, 4), (c, 4), (c, 1)], [('bool', 4)] * 4,
           'stv(o, glm::equal(ldq<%s>(a), ldq<%s>(b), c[0])); stv(o2, glm::notEqual(ldq<%s>(a), ldq<%s>(b), c[0])); stv(o3, glm::epsilonEqual(ldq<%s>(a), ldq<%s>(b), c[0])); stv(o4, glm::epsilonNotEqual(ldq<%s>(a), ldq<%s>(b), c[0]));' % ((c,) * 8))
+for t, (c, w, ic) in FT.items():       # the gtc/ulp.hpp twins (next_float, prev_float, float_distance; scalar, n-step and vector overloads)
+    U.add('g_step_' + t, [(c, 1)], [(c, 2)], 'o[0] = glm::next_float(a[0]); o[1] = glm::prev_float(a[0]);')
+    U.add('g_nstep_' + t, [(c, 1), ('int', 1)], [(c, 2)], 'o[0] = glm::next_float(a[0], b[0]); o[1] = glm::prev_float(a[0], b[0]);')
+    U.add('g_dist_' + t, [(c, 2)], [(ic, 1)], 'o[0] = glm::float_distance(a[0], a[1]);')
+    U.add('g_vec_' + t, [(c, 3), ('int', 3)], [(c, 3)] * 4 + [(ic, 3)], 'stv(o, glm::next_float(ldv<3,%s>(a))); stv(o2, glm::prev_float(ldv<3,%s>(a))); stv(o3, glm::next_float(ldv<3,%s>(a), ldv<3,int>(b))); stv(o4, glm::prev_float(ldv<3,%s>(a), b[0])); stv(o5, glm::float_distance(ldv<3,%s>(a), ldv<3,%s>(a + 0)));' % ((c,) * 6))
 U.add('sun_nextafterf', [('float', 2)], [('float', 1)], 'o[0] = glm::detail::nextafterf(a[0], a[1]);')
 U.add('sun_nextafter', [('double', 2)], [('double', 1)], 'o[0] = glm::detail::nextafter(a[0], a[1]);')
 def units(tier): return [U]
@@ -80,6 +85,26 @@ def job_dist(t):
     def run(S):
         fits = lambda i: [notnan(i[0][0]), notnan(i[0][1]), dist(i[0][0], i[0][1]) < (1 << (w - 1))]
         S.check_fn(U, 'dist_' + t, lambda i, o: [('ulp-distance', sx(o[0][0], w + 2) == dist(i[0][0], i[0][1]))], fits, bounds='all non-NaN pairs whose distance fits the return type')
+    return run
+def job_legacy(t):
+    """gtc/ulp.hpp: next_float / prev_float / float_distance obey the same integer arithmetic on the IEEE total order as the ext functions"""
+    c, w, ic = FT[t]
+    def run(S):
+        top = ordv(z3.BitVecVal(infbits(w), w))
+        S.check_fn(U, 'g_step_' + t, lambda i, o: [('succ', z3.And(ordv(o[0][0].bits) == ordv(i[0][0]) + 1, notnan(o[0][0].bits))), ('pred', z3.And(ordv(o[0][1].bits) == ordv(i[0][0]) - 1, notnan(o[0][1].bits)))],
+                   lambda i: [notnan(i[0][0]), i[0][0] != infbits(w), i[0][0] != infbits(w, True)], bounds='every finite x')
+        n = lambda i: sx(i[1][0], w + 2)
+        S.check_fn(U, 'g_nstep_' + t, lambda i, o: [('n-steps-up', ordv(o[0][0].bits) == ordv(i[0][0]) + n(i)), ('n-steps-down', ordv(o[0][1].bits) == ordv(i[0][0]) - n(i))],
+                   lambda i: [notnan(i[0][0]), i[1][0] >= 0, i[1][0] <= 8, ordv(i[0][0]) + n(i) <= top, ordv(i[0][0]) - n(i) >= -top], unwind=10, bounds='0<=n<=8, x +- n steps finite or infinite')
+        S.check_fn(U, 'g_dist_' + t, lambda i, o: [('ulp-distance', sx(o[0][0], w + 2) == dist(i[0][0], i[0][1]))], lambda i: [notnan(i[0][0]), notnan(i[0][1]), dist(i[0][0], i[0][1]) < (1 << (w - 1))], bounds='all non-NaN pairs whose distance fits the return type')
+        def vspec(i, o):
+            g = []
+            for k in range(3):
+                x = i[0][k]
+                g += [('v.succ%d' % k, ordv(o[0][k].bits) == ordv(x) + 1), ('v.pred%d' % k, ordv(o[1][k].bits) == ordv(x) - 1), ('v.n-up%d' % k, ordv(o[2][k].bits) == ordv(x) + sx(i[1][k], w + 2)),
+                      ('v.n-down%d' % k, ordv(o[3][k].bits) == ordv(x) - sx(i[1][0], w + 2)), ('v.dist%d' % k, o[4][k] == 0)]
+            return g
+        S.check_fn(U, 'g_vec_' + t, vspec, lambda i: [h for x in i[0] for h in (notnan(x), ordv(x) + 9 <= top, ordv(x) - 9 >= -top)] + [z3.And(m >= 0, m <= 8) for m in i[1]], unwind=10, bounds='0<=n<=8 per component, finite results')
     return run
 def ulp_equal_spec(x, y, m, w): return dist(x, y) <= sx(m, w + 2)
 def job_equlp(t, shape):
@@ -182,6 +207,7 @@ def job_sun(S):
 def jobs(tier):
     q = tier == 'quick'; J = []
     for t in FT:
+        J.append(('legacy_' + t, job_legacy(t)))
         J += [('step_' + t, job_step(t)), ('nstep_' + t, job_nstep(t)), ('dist_' + t, job_dist(t)), ('equlp_s_' + t, job_equlp(t, 's')), ('eqeps_s_' + t, job_eqeps(t, 's'))]
         for L in ((3,) if q else (1, 2, 3, 4)):
             J += [('equlp_v%d_%s' % (L, t), job_equlp(t, 'v%d' % L)), ('eqeps_v%d_%s' % (L, t), job_eqeps(t, 'v%d' % L)), ('vecstep_v%d_%s' % (L, t), job_vecstep(t, L))]
